@@ -14,6 +14,50 @@ def _resets(r):
     return [t for t in r.timer_ops() if t[1] == 'reset']
 
 
+def allow_of(r):
+    for t, b in r.guards:
+        if t == 'truth(fsm.allow_automatic_start)':
+            return b
+    v = r.field('fsm', 'allow_automatic_start')
+    if v is not None and hasattr(v, 'value') and not hasattr(v, 'd'):
+        return bool(v.value)
+    return None
+
+
+def has_token(r):
+    """A reconnection is pending at the end of the path."""
+    if r.timer_final('idle_hold') == 'armed':
+        return 'idle-hold timer armed'
+    if r.connects():
+        return 'TCP connect started'
+    if r.closes() and r.event not in ('TCP_DOWN', 'TCP_CLOSED'):
+        return 'close requested (connectionLost -> connection_closed -> automatic_start)'
+    return None
+
+
+def hold_interval(r):
+    v = r.field('fsm', 'hold_time')
+    if v is None:
+        return None
+    if hasattr(v, 'value') and isinstance(getattr(v, 'value'), (int, float)):
+        return (v.value, v.value)
+    if hasattr(v, 'name'):
+        lo, hi, _ = r.st.interval(v.name)
+        return (lo, hi)
+    return None
+
+
+def RESTART_HOLD(r):
+    """RFC 4271 8.2.2: KEEPALIVE (OpenConfirm/Established) and UPDATE (Established) restart the
+    HoldTimer when the negotiated hold time is not zero."""
+    iv = hold_interval(r)
+    if iv is None or iv[1] < 1:
+        return []
+    if not any(t[0] == 'hold' and t[1] == 'reset' for t in r.timer_ops()):
+        return ['does not restart the HoldTimer (negotiated hold time may be > 0)']
+    return []
+
+
 def IGNORE(r):
     p = []
     if r.sends():
@@ -55,6 +99,9 @@ def TO_IDLE(code=None, sub=None, need_close=True):
                 ev = [e[0] for e in r.events if e[0] in ('write', 'close')]
                 if 'write' in ev and ev.index('close') < ev.index('write'):
                     p.append('closes before sending the NOTIFICATION')
+        if r.final == 'Idle' and r.pre not in ('Idle', 'Active') and r.event != 'MSTOP' and \
+                allow_of(r) is not False and has_token(r) is None:
+            p.append('ends in Idle with no reconnection pending (no idle-hold timer, no connect, no close)')
         return p
     chk.__name__ = 'TO_IDLE(%s,%s)' % (code if code is not None else '-', sub if sub is not None else '*')
     return chk
@@ -174,6 +221,13 @@ def DC(r):
 DC.__name__ = 'DONTCARE'
 
 
+def _both(a, b):
+    def chk(r):
+        return a(r) + b(r)
+    chk.__name__ = '%s+%s' % (a.__name__, b.__name__)
+    return chk
+
+
 def _all(x):
     return {s: x for s in STATES}
 
@@ -208,9 +262,10 @@ PROFILE = {
                        [TO_IDLE(2, 'sub'), FSM5]),
     'NOTIF_VER': _cells(IGNORE, TO_IDLE(), TO_IDLE(), TO_IDLE(), TO_IDLE(), TO_IDLE()),
     'NOTIF': _cells(IGNORE, TO_IDLE(), TO_IDLE(), TO_IDLE(), TO_IDLE(), TO_IDLE()),
-    'KEEPALIVE': _cells(IGNORE, TO_IDLE(), TO_IDLE(), FSM5, GOTO('Established', connect=False, close=False),
-                        STAY()),
-    'UPDATE': _cells(IGNORE, TO_IDLE(), TO_IDLE(), FSM5, FSM5, STAY()),
+    'KEEPALIVE': _cells(IGNORE, TO_IDLE(), TO_IDLE(), FSM5,
+                        _both(GOTO('Established', connect=False, close=False), RESTART_HOLD),
+                        _both(STAY(), RESTART_HOLD)),
+    'UPDATE': _cells(IGNORE, TO_IDLE(), TO_IDLE(), FSM5, FSM5, _both(STAY(), RESTART_HOLD)),
     'ROUTEREFRESH': _cells([IGNORE, FSM5], [IGNORE, TO_IDLE()], [IGNORE, TO_IDLE()], [IGNORE, FSM5],
                            [IGNORE, FSM5], STAY()),
     'NOINPUT': _cells(IGNORE, IGNORE, IGNORE, IGNORE, IGNORE, IGNORE),
